@@ -7,7 +7,7 @@ size_t g_bi, g_di, g_mz_idx;
 #include "drbg_os.h"
 size_t g_er_calls, g_er_lastlen;
 size_t g_ce_gen_calls, g_ce_done, g_ce_reseeds, g_ce_reseed_early, g_ce_inst_calls, g_ce_inst, g_er_fails, g_blk;
-const uint8_t * g_ce_base;
+uint8_t * g_ce_base;
 #undef CPUSUPPORT_X86_RDRAND
 #include "crypto/crypto_entropy.c"
 #include "sp800_90a_spec.h"
